@@ -9,6 +9,7 @@ import (
 	"google.golang.org/grpc/codes"
 	"google.golang.org/grpc/metadata"
 	"google.golang.org/grpc/status"
+	"google.golang.org/protobuf/types/known/emptypb"
 	"google.golang.org/protobuf/types/known/wrapperspb"
 
 	"github.com/jhump/grpctunnel/tunnelpb"
@@ -495,10 +496,13 @@ func verifH_CreditReturn() {
 	if rev0 {
 		rev = tunnelpb.ProtocolRevision_REVISION_ZERO
 	}
+	method := []string{"a/s", "a/u"}[verifChoice("method", 2)] // a streaming and a unary method: credit is owed for both
 	car.script = []*tunnelpb.ClientToServer{
-		{StreamId: 4, Frame: &tunnelpb.ClientToServer_NewStream{NewStream: &tunnelpb.NewStream{MethodName: "a/s", ProtocolRevision: rev, InitialWindowSize: 100}}},
+		{StreamId: 4, Frame: &tunnelpb.ClientToServer_NewStream{NewStream: &tunnelpb.NewStream{MethodName: method, ProtocolRevision: rev, InitialWindowSize: 100}}},
 		{StreamId: 4, Frame: &tunnelpb.ClientToServer_RequestMessage{RequestMessage: &tunnelpb.MessageData{Size: uint32(len(w)), Data: w}}},
+		{StreamId: 4, Frame: &tunnelpb.ClientToServer_HalfClose{HalfClose: &emptypb.Empty{}}},
 	}
+	car.pauseAt = 2 // the half-close arrives after the handler has had time to read the request
 	err := svr.serve(nil)
 	verifDrain()
 	verifAssert(err == nil && len(hl.calls) == 1 && hl.readErr == nil, "C01.srv-request-readable")
